@@ -451,7 +451,7 @@ impl RWorld {
                     return Err(RErr::Domain);
                 }
                 let has_graph = hs.iter().any(|h| h.tracked);
-                let buffer = if matches!(opk, OpK::Reshape(_)) { self.nodes[hs[0].node].buffer } else { self.fresh_buffer() };
+                let buffer = if matches!(opk, OpK::Reshape(_) | OpK::UIdent) { self.nodes[hs[0].node].buffer } else { self.fresh_buffer() };
                 self.nodes.push(RNode {
                     t,
                     op: Some(*op),
